@@ -75,4 +75,4 @@ def project(script, i, o):
         return ("R", "arp", p.arp)
     if p.proto not in (1, 58):
         return ("R", p.ipver, p.proto)          # not an ARP / ICMP reply: other properties' subject
-    return ("R", p.ipver, p.proto, p.l4[:2] + p.l4[4:] if p.l4 is not None else None)
+    return ("R", p.ipver, p.proto, p.l4[:2] + (net.icmp6_rest(p.l4) if p.proto == 58 else p.l4[4:]) if p.l4 is not None else None)
